@@ -41,12 +41,12 @@ func (r *resolver) NumContents() uint64 {
 	if r.deduplicate {
 		return uint64(len(r.OffsetMap))
 	}
-	return r.AddressedTiles
+	return uint64(len(r.Entries))
 }
 
 // must be called in increasing tile_id order, uniquely
 func (r *resolver) AddTileIsNew(tileID uint64, data []byte, runLength uint32) (bool, []byte) {
-	r.AddressedTiles++
+	r.AddressedTiles += uint64(runLength)
 	var found offsetLen
 	var ok bool
 	var sumString string
@@ -280,7 +280,7 @@ func finalize(logger *log.Logger, resolve *resolver, header HeaderV3, tmpfile *o
 
 	header.Clustered = true
 	header.InternalCompression = Gzip
-	if header.TileType == Mvt {
+	if resolve.compress {
 		header.TileCompression = Gzip
 	}
 
